@@ -224,16 +224,26 @@ def c09_inputs(rng, tier):
     for g in gens.families(rng, big=False):
         inputs.append((gens.reweight(rng, g, [100, 200, 300]), 1000))
         inputs.append((gens.reweight(rng, g, list(range(1, 999))), 1000))
+    # near ties: k/10 + j*1e-6 (den 10^6) and k/10 + j*1e-7 (den 10^7): distinct path weights that differ by 1e-8..1e-6
+    # relative, i.e. far above double rounding and far below any 'generous' comparison slack
+    for _ in range(260 if tier == 'quick' else 4000):
+        n = rng.randint(5, 7)
+        m = rng.randint(n + 2, min(n * (n - 1) // 2, 16))
+        if rng.random() < 0.5:
+            den, wg = 1000000, (lambda: rng.randint(1, 9) * 100000 + rng.randint(0, 9))
+        else:
+            den, wg = 10000000, (lambda: rng.randint(1, 4) * 1000000 + rng.randint(0, 9))
+        inputs.append((gens.rand_graph(rng, n, m, wg), den))
     return inputs
 
 
 def check_C09(res, tier, seed, replay):
     rng = random.Random(seed)
-    res.assumptions += ['weights are k/1000 for integers k; the oracle runs on the integers k (exact); the rounding of k/1000 to double (<= 2^-53 relative) is nine orders of magnitude below the 1e-9 tolerance',
-                        'ret is logged as nearest integer of ret*1000 plus the fraction in 1e-9 units; |ret - opt| <= 1e-9 * opt is decided in 32-bit integer arithmetic']
+    res.assumptions += ['weights are k/den for integers k, den in {10^3, 10^6, 10^7}; the oracle runs on the integers k (exact); the rounding of k/den to double (<= 2^-53 relative) is nine orders of magnitude below the 1e-9 tolerance',
+                        'ret is logged as nearest integer of ret*den plus the fraction in 1e-9 units; |ret - opt| <= 1e-9 * opt is decided in 32-bit integer arithmetic']
     inputs = None if replay else c09_inputs(rng, tier)
     run_exact(res, tier, seed, replay, CLAUSES['C09'], algos='signed,fvs,iso,signed_tbb,fvs_tbb,iso_tbb', types='double', tol=1, inputs=inputs)
-    res.cov['rule'] = 'random graphs n<=9, m<=15 with decimal weights k/1000 (uniform 0.001..1000, tie-provoking {0.1,0.2,0.3} patterns, small decimals) and reweighted families; six exact variants (sequential + real oneTBB)'
+    res.cov['rule'] = 'random graphs n<=9, m<=15 with decimal weights k/1000 (uniform 0.001..1000, tie-provoking {0.1,0.2,0.3} patterns, small decimals), near-tie weights k/10 + j*1e-6 / j*1e-7, and reweighted families; six exact variants (sequential + real oneTBB)'
 
 
 REGISTRY['C09'] = check_C09
